@@ -174,3 +174,46 @@ def write_evidence(prop, ev):
     p = os.path.join(VERIF, 'evidence', prop + '.json')
     json.dump(ev, open(p, 'w'), indent=1, sort_keys=True)
     return p
+
+
+def _proof_fn_sig(text, m, name):
+    mo = re.search(r'\bproof\s+fn\s+' + re.escape(name) + r'\b', m)
+    if not mo:
+        return None
+    j = mo.end(); depth = 0
+    while j < len(m):
+        ch = m[j]
+        if ch in '([':
+            depth += 1
+        elif ch in ')]':
+            depth -= 1
+        elif ch == '{' and depth == 0:
+            # a `{` inside the contract (struct literal / match / block) is followed by a matching `}` and more contract text;
+            # the body brace is the one whose preceding non-space text is not an operator/keyword context -- approximate:
+            # contracts in this code base never contain a top-level `{` at column 0, and bodies start with `\n{`
+            if m[j - 1] == '\n':
+                return (mo.start(), j)
+        j += 1
+    return None
+
+
+def proof_fns_with_requires(text):
+    m = mask(text)
+    out = []
+    for mo in re.finditer(r'\bproof\s+fn\s+([A-Za-z0-9_]+)', m):
+        sig = _proof_fn_sig(text, m, mo.group(1))
+        if sig and re.search(r'\brequires\b', m[sig[0]:sig[1]]) and re.search(r'\bensures\b', m[sig[0]:sig[1]]):
+            out.append(mo.group(1))
+    return out
+
+
+def lemma_canary_text(text, name):
+    m = mask(text)
+    sig = _proof_fn_sig(text, m, name)
+    if not sig:
+        return None
+    es = [x for x in re.finditer(r'\bensures\b', m[sig[0]:sig[1]])]
+    if not es:
+        return None
+    pos = sig[0] + es[-1].end()
+    return text[:pos] + ' false,' + text[pos:]
